@@ -9,9 +9,23 @@
   History: until the fix commits b501fa0 (entry copy), cd8d9e4 (local phase), 00005ff
   (admittance `pop`), 2481879 (dump_load rewrite), b379006 (circuit files convert complex
   notations) four clauses were false of the code and this file carried counterexample
-  theorems.  The model follows the repaired code; every clause is now proved at full
-  strength.  Reverting a fix changes CC/Gen/LoadTables.lean (or the correspondence) and the
-  theorem that rests on it stops compiling.
+  theorems.  The model follows the repaired code; the formerly refuted clauses — network
+  loader faithful for every kind, purity, idempotence, round trip, table well-formedness — are
+  now proved at full strength.  Reverting a fix changes CC/Gen/LoadTables.lean (or the
+  correspondence) and the theorem that rests on it stops compiling.
+
+  What is NOT proved here at full strength: the *circuit* loader clause "every kind of the
+  circuit table loads to exactly the given id, nodes and value".  This file has
+  `C17_circuit_table_total` (names only, `decide`), `C17_circuit_pure/idempotent`, and
+  `C17_circuit_complex` (one kind — impedance — with a fixed id and fixed nodes, both notations).
+  The general statement is proved on the *constructor* model of the Circuit group:
+  `C19_stored_unaltered` (CC/Properties/C19.lean: a constructor stores the identifier, the
+  terminals and the kind it was called with and writes exactly the keys of its value dictionary)
+  and `C07_reads_written` / `C07_table_total` (CC/Properties/C07.lean); the step from a description
+  dictionary to the constructor call (`generateComponent` of CC/Model/Load.lean: which keys are
+  read, how the value block is bound to the parameters) is tied to the code by the correspondence
+  and the intended-meaning oracle of harness/props/c17.py (every kind × four notations, fault
+  streams), not by a theorem — listed under OPEN_STATEMENTS.
 -/
 import CC.Model.Load
 import CC.Spec.Load
@@ -155,7 +169,8 @@ theorem C17_table_wellformed : ∀ L ∈ networkBranchTranslators, L.wellFormed 
   decide
 
 /-- The circuit table: documented kinds = table kinds, every kind is built by the
-constructor of the same kind, which exists. -/
+constructor of the same kind, which exists.  (A statement about *names*; that a constructor stores
+exactly the given id, nodes and value is `C19_stored_unaltered`, see the header.) -/
 theorem C17_circuit_table_total :
     (documentedComponentKinds.all fun k => circuitComponentTranslators.any (·.1 == k)) = true ∧
     (circuitComponentTranslators.all fun p => documentedComponentKinds.contains p.1) = true ∧
@@ -348,20 +363,52 @@ theorem C17_mixed_keys (T : Trig) (x y : J) (hx : Unambiguous x = true) (hy : Un
   apply (C17_roundtrip T _ _).2
   simp [Unambiguous, UnambiguousO, cxLike, Obj.keysAre, Obj.has, Obj.find, hx, hy]
 
+/-- a (de)serialiser pair is lossless on plain trees *for the library pairs the two tables put
+together* (`json.dumps`/`json.loads`, `yaml.dump`/`yaml.safe_load`): this is the recorded
+assumption about json / yaml, nothing is assumed about mismatched libraries -/
+def LosslessCodec (dumps : String → J → Except Err String) (loads : String → String → Except Err J) : Prop :=
+  ∀ (fmt ld ll : String), (fmt, ld) ∈ serializers → (fmt, ll) ∈ deserializers →
+    ∀ (t : J) (s : String), Plain t = true → dumps ld t = .ok s → loads ll s = .ok t
+
 /-- …and through `serialize` / `deserialize`, for every format of the table and every
-(de)serialiser that is lossless on plain trees. -/
+(de)serialiser that is lossless on plain trees.  The hypothesis is an assumption about the
+libraries (json, yaml are outside Lean); that it is satisfiable at all is shown by the
+`example` below, the unconditional part of the clause is `C17_roundtrip`. -/
 theorem C17_roundtrip_codec (T : Trig) (dumps : String → J → Except Err String)
-    (loads : String → String → Except Err J)
-    (hcodec : ∀ (ld ll : String) (t : J) (s : String), Plain t = true → dumps ld t = .ok s → loads ll s = .ok t)
+    (loads : String → String → Except Err J) (hcodec : LosslessCodec dumps loads)
     (t : J) (hu : Unambiguous t = true) (fmt s : String)
     (hfmt : fmt = "json" ∨ fmt = "yaml" ∨ fmt = "yml")
     (hs : serialize dumps t fmt = .ok s) :
     deserialize loads T s fmt = .ok t := by
-  rcases hfmt with rfl | rfl | rfl <;>
+  have key : ∀ (f ld ll : String), (f, ld) ∈ serializers → (f, ll) ∈ deserializers →
+      dumps ld (dictifyAll t) = .ok s → loads ll s = .ok (dictifyAll t) :=
+    fun f ld ll h1 h2 hd => hcodec f ld ll h1 h2 _ _ (Load.dictifyAll_plain t) hd
+  rcases hfmt with rfl | rfl | rfl
   · simp only [serialize, serializers, deserializers, deserialize, List.find?] at hs ⊢
     simp at hs ⊢
-    rw [hcodec _ _ _ _ (Load.dictifyAll_plain t) hs]
+    rw [key "json" _ _ (by simp [serializers]) (by simp [deserializers]) hs]
     simp [Load.roundtrip T t hu]
+  · simp only [serialize, serializers, deserializers, deserialize, List.find?] at hs ⊢
+    simp at hs ⊢
+    rw [key "yaml" _ _ (by simp [serializers]) (by simp [deserializers]) hs]
+    simp [Load.roundtrip T t hu]
+  · simp only [serialize, serializers, deserializers, deserialize, List.find?] at hs ⊢
+    simp at hs ⊢
+    rw [key "yml" _ _ (by simp [serializers]) (by simp [deserializers]) hs]
+    simp [Load.roundtrip T t hu]
+
+/-- satisfiability witness for `LosslessCodec` (non-vacuous: it serialises one document): a toy
+codec that knows a single plain tree.  Real codecs are json / yaml — outside Lean, checked per
+case by the round-trip oracle of the harness. -/
+example : ∃ (dumps : String → J → Except Err String) (loads : String → String → Except Err J),
+    LosslessCodec dumps loads ∧ dumps "json.dumps" (.obj [("a", .num 1)]) = .ok "doc" := by
+  refine ⟨fun _ t => if t = .obj [("a", .num 1)] then .ok "doc" else .error .typeError,
+          fun _ s => if s = "doc" then .ok (.obj [("a", .num 1)]) else .error .valueError, ?_, by simp⟩
+  intro fmt ld ll _ _ t s _ hd
+  by_cases ht : t = .obj [("a", .num 1)]
+  · simp only [ht, if_true, Except.ok.injEq] at hd
+    simp [← hd, ht]
+  · simp [ht] at hd
 
 /-- non-vacuity: complex leaves in a dictionary and in a list, a list of scalars, nesting -/
 example : Unambiguous (.obj [("a", .cx ⟨1, 2⟩), ("nodes", .arr [.str "0", .str "1"]),
